@@ -402,7 +402,7 @@ def harness(ctx):
     exe, log = ctx.cc('h_sched', [os.path.join(vlib.VERIF, 'harness/h_sched.c'), R + '/librfn/list.c', R + '/librfn/messageq.c',
                                   R + '/librfn/util.c', R + '/librfn/posix/time_posix.c'], ['-I' + R + '/librfn'])
     if not exe:
-        raise vlib.Infra('scheduler harness does not compile against the repository: ' + log[-1500:])
+        raise vlib.Unbuildable('scheduler harness does not compile against the repository: ' + log[-1500:])
     return exe
 
 
